@@ -207,7 +207,7 @@ func runCheck(o CheckOpts) int {
 	if !o.KeepSMT {
 		defer os.RemoveAll(dir)
 	}
-	sv := &Solver{Dir: dir, TimeoutS: 10, Workers: 6}
+	sv := &Solver{Dir: dir, TimeoutS: 20, Workers: 4}
 	if o.Tier == "thorough" {
 		sv.TimeoutS = 60
 		sv.NeedTwo = true
